@@ -102,6 +102,9 @@ THEOREMS = {
             "Iauthd.Conf.rt_entry", "Iauthd.Conf.rt_entries", "Iauthd.Conf.rt_top", "Iauthd.Conf.parse_rendered",
             "Iauthd.Conf.bridge_ents", "Iauthd.Conf.renderEntries_noNul", "Iauthd.Conf.pfold_canonTree",
             "Iauthd.Conf.C16_partial",
+            "Iauthd.Conf.gapAny_care", "Iauthd.Conf.entryEnd_open", "Iauthd.Conf.comma_at", "Iauthd.Conf.rt2_entry",
+            "Iauthd.Conf.rt2_block", "Iauthd.Conf.rt2_top", "Iauthd.Conf.parse_rendered2", "Iauthd.Conf.bridge_block",
+            "Iauthd.Conf.C16_full", "Iauthd.Properties.C16_any_variant",
             "Iauthd.Conf.boolean_spec", "Iauthd.Conf.integer_spec", "Iauthd.Conf.interval_spec", "Iauthd.Conf.volume_spec",
             "Iauthd.Conf.typed_spec", "Iauthd.Conf.typed_reject", "Iauthd.Conf.typed_accept",
             "Iauthd.Properties.C16", "Iauthd.Properties.C16_typed",
@@ -134,7 +137,7 @@ def lean_modules(prop):
         mods += ["Iauthd.Conf.ProofsHeap", "Iauthd.Conf.ProofsSettle", "Iauthd.Conf.ProofsHooks"]
     if prop == "C16":
         mods += ["Iauthd.Conf.ProofsRender", "Iauthd.Conf.ProofsCanon", "Iauthd.Conf.ProofsRoundtrip", "Iauthd.Conf.ProofsBridge",
-                 "Iauthd.Conf.ProofsTyped"]
+                 "Iauthd.Conf.ProofsRoundtrip2", "Iauthd.Conf.ProofsBridge2", "Iauthd.Conf.ProofsTyped"]
     return mods + ["Iauthd.Properties." + prop]
 
 
